@@ -1,0 +1,105 @@
+//go:build verif
+
+package verifhook
+
+import (
+	"fmt"
+	"math/rand"
+	"os"
+	"sort"
+	"strconv"
+	"strings"
+	"sync"
+	"sync/atomic"
+	"time"
+)
+
+type delay struct {
+	d   time.Duration
+	pct int
+}
+
+var (
+	handler  atomic.Value // func(string)
+	counts   sync.Map     // name -> *int64
+	delays   map[string]delay
+	initOnce sync.Once
+)
+
+// Set installs the function called at every hook point (nil removes it).
+// The harness uses it to park a goroutine at one point until another
+// goroutine has passed a second point, forcing a chosen interleaving.
+func Set(f func(name string)) {
+	if f == nil {
+		f = func(string) {}
+	}
+	handler.Store(f)
+}
+
+// Hits returns how often each hook point was reached.
+func Hits() map[string]int64 {
+	out := map[string]int64{}
+	counts.Range(func(k, v interface{}) bool {
+		out[k.(string)] = atomic.LoadInt64(v.(*int64))
+		return true
+	})
+	return out
+}
+
+func setup() {
+	// VERIF_HOOK_DELAYS="name=5ms,other=1ms@50" (sleep at the hook, optionally only in N% of the hits)
+	delays = map[string]delay{}
+	for _, item := range strings.Split(os.Getenv("VERIF_HOOK_DELAYS"), ",") {
+		kv := strings.SplitN(strings.TrimSpace(item), "=", 2)
+		if len(kv) != 2 {
+			continue
+		}
+		spec, pct := kv[1], 100
+		if i := strings.IndexByte(spec, '@'); i >= 0 {
+			pct, _ = strconv.Atoi(spec[i+1:])
+			spec = spec[:i]
+		}
+		if d, err := time.ParseDuration(spec); err == nil {
+			delays[kv[0]] = delay{d, pct}
+		}
+	}
+	// VERIF_HOOK_STATS=<file>: hit counters are written there periodically
+	// (the processes under test are usually killed, not exited).
+	if path := os.Getenv("VERIF_HOOK_STATS"); path != "" {
+		go func() {
+			for {
+				time.Sleep(200 * time.Millisecond)
+				hits := Hits()
+				names := make([]string, 0, len(hits))
+				for n := range hits {
+					names = append(names, n)
+				}
+				sort.Strings(names)
+				var sb strings.Builder
+				for _, n := range names {
+					fmt.Fprintf(&sb, "%s %d\n", n, hits[n])
+				}
+				tmp := path + ".tmp"
+				if os.WriteFile(tmp, []byte(sb.String()), 0o644) == nil {
+					os.Rename(tmp, path)
+				}
+			}
+		}()
+	}
+}
+
+// At marks a hook point.
+func At(name string) {
+	initOnce.Do(setup)
+	c, ok := counts.Load(name)
+	if !ok {
+		c, _ = counts.LoadOrStore(name, new(int64))
+	}
+	atomic.AddInt64(c.(*int64), 1)
+	if d, ok := delays[name]; ok && (d.pct >= 100 || rand.Intn(100) < d.pct) {
+		time.Sleep(d.d)
+	}
+	if f, ok := handler.Load().(func(string)); ok {
+		f(name)
+	}
+}
